@@ -87,6 +87,13 @@ def fitted_case(draw, classes, max_features=3, dev_modes=None, quant_pools=None,
             groups.append([f"G{len(groups)}", f["values"][i : i + size]])
             i += size
         levels = [groups, [["ROOT", [g for g, _ in groups]]]]
+        # in a third of the cases the last group of leaves is unknown to the hierarchy and unknown_handling='drop'
+        # files its values with the missing values (a missing-value group that holds ordinary values)
+        unknown = "raise"
+        if len(groups) >= 3 and draw(st.integers(0, 2)) == 0:
+            unknown = "drop"
+            groups.pop()
+            levels = [groups, [["ROOT", [g for g, _ in groups]]]]
     if cls in ("CategoricalDiscretizer",):
         # documented for string columns only
         for f in case["features"]:
@@ -101,6 +108,7 @@ def fitted_case(draw, classes, max_features=3, dev_modes=None, quant_pools=None,
     cfg["n_jobs"] = 1
     if cls == "ChainedDiscretizer":
         cfg["levels"] = levels
+        cfg["unknown"] = unknown
     case["config"] = cfg
     # boundary situations by construction: in a quarter of the cases one modality of one feature is given a
     # training count of exactly threshold * n rows (threshold in min_freq, min_freq/2, min_freq_mod)
@@ -199,6 +207,10 @@ def make_object(case, **override):
         cat = [f for f in cat if f in keep]
         ordi = [f for f in ordi if f in keep]
     orders = {f: GroupedList(list(rankings[f])) for f in ordi}
+    # previous discretization of a categorical feature handed over through values_orders: {feature: [[leader, members]]}
+    for f, groups in (cfg.get("pregrouped") or {}).items():
+        if f in cat:
+            orders[f] = GroupedList({leader: list(members) for leader, members in groups})
     common = {"copy": cfg.get("copy", False), "n_jobs": cfg.get("n_jobs", 1)}
     if cls in CARVERS:
         kwargs = dict(
@@ -232,7 +244,7 @@ def make_object(case, **override):
         return klass(qualitative_features=cat, **common)
     if cls == "ChainedDiscretizer":
         chained = [{parent: list(children) + [parent] for parent, children in level} for level in cfg["levels"]]
-        return klass(qualitative_features=cat, min_freq=cfg["min_freq"], chained_orders=chained, unknown_handling="raise", **common)
+        return klass(qualitative_features=cat, min_freq=cfg["min_freq"], chained_orders=chained, unknown_handling=cfg.get("unknown", "raise"), **common)
     raise ValueError(cls)
 
 
